@@ -1,13 +1,384 @@
 package main
 
+// Operations of property C20: quote / unquote / HTML escape / UTF-8 routines of sonic, called directly
+// and through Marshal / Unmarshal, each beside its executable reference (encoding/json, unicode/utf8).
+
 import (
+	"bytes"
+	"encoding/json"
+	"strings"
+	"unicode/utf8"
+
+	"github.com/bytedance/sonic"
+	"github.com/bytedance/sonic/ast"
+	"github.com/bytedance/sonic/decoder"
 	"github.com/bytedance/sonic/encoder"
+	"github.com/bytedance/sonic/unquote"
+	sutf8 "github.com/bytedance/sonic/utf8"
 )
 
+// bytewise replacement of ill-formed UTF-8 as unicode/utf8 decodes it (one replacement per byte)
+func fixUTF8(b []byte, repl string) []byte {
+	out := make([]byte, 0, len(b))
+	for i := 0; i < len(b); {
+		r, n := utf8.DecodeRune(b[i:])
+		if r == utf8.RuneError && n == 1 {
+			out = append(out, repl...)
+			i++
+			continue
+		}
+		out = append(out, b[i:i+n]...)
+		i += n
+	}
+	return out
+}
+
+func okHex(b []byte) string { return "ok:" + hexArg(b) }
+
+var unqErrNames = map[int]string{1: "EOF", 2: "INVALID_CHAR", 3: "INVALID_ESCAPE", 4: "INVALID_UNICODE"}
+
+type strField struct {
+	S string `json:"s"`
+}
+type strFieldQ struct {
+	S string `json:"s,string"`
+}
+
+var cfgHTML = sonic.Config{EscapeHTML: true}.Froze()
+var cfgValid = sonic.Config{ValidateString: true}.Froze()
+
+func marshalCfg(cfg string) sonic.API {
+	switch cfg {
+	case "s":
+		return sonic.ConfigStd
+	case "h":
+		return cfgHTML
+	case "v":
+		return cfgValid
+	}
+	return sonic.ConfigDefault
+}
+
+// cut the known frame off a document; ok=false when the frame is not there
+func unframe(doc []byte, pre, suf string) ([]byte, bool) {
+	if len(doc) >= len(pre)+len(suf) && bytes.HasPrefix(doc, []byte(pre)) && bytes.HasSuffix(doc, []byte(suf)) {
+		return doc[len(pre) : len(doc)-len(suf)], true
+	}
+	return nil, false
+}
+
 func init() {
-	// quote <hex bytes> -> sonic=<hex of encoder.Quote>
+	// quote <hex>: encoder.Quote; ref = does encoding/json decode the result to the input
+	// (ill-formed input bytes come back as U+FFFD from encoding/json)
 	registerOp("quote", func(a []string) string {
-		s := string(unhexArg(a[0]))
-		return "sonic=" + hexArg([]byte(encoder.Quote(s)))
+		in := unhexArg(a[0])
+		out := encoder.Quote(string(in))
+		var back string
+		ref := "0"
+		if err := json.Unmarshal([]byte(out), &back); err == nil && back == string(fixUTF8(in, "\ufffd")) {
+			ref = "1"
+		}
+		return "sonic=" + hexArg([]byte(out)) + "\tref=" + ref
 	})
+
+	// unq <hex>: unquote.String (F_UNICODE_REPLACE); ref = encoding/json on `"`+s+`"` where that is a
+	// literal encoding/json can be asked about (no bare quote / control character); encoding/json
+	// replaces ill-formed raw bytes, unquote.String copies them: sfix = sonic's result after the same
+	// replacement, to be compared with ref.
+	registerOp("unq", func(a []string) string {
+		in := unhexArg(a[0])
+		s, e := unquote.String(string(in))
+		var res, sfix string
+		if e == 0 {
+			res = okHex([]byte(s))
+			sfix = okHex(fixUTF8([]byte(s), "\ufffd"))
+		} else {
+			n := unqErrNames[int(e)]
+			if n == "" {
+				n = "OTHER" + itoa(int(e))
+			}
+			res = "err:" + n
+			sfix = "err"
+		}
+		// IntoBytes must agree with String
+		buf := make([]byte, 0, len(in)+1)
+		e2 := unquote.IntoBytes(string(in), &buf)
+		into := "1"
+		if (e2 != 0) != (e != 0) || (e == 0 && string(buf) != s) {
+			into = "0"
+		}
+		ref := "na"
+		if !bytes.ContainsRune(in, '"') && !hasCtl(in) {
+			var back string
+			if err := json.Unmarshal([]byte(`"`+string(in)+`"`), &back); err == nil {
+				ref = okHex([]byte(back))
+			} else {
+				ref = "err"
+			}
+		}
+		return "sonic=" + res + "\tsfix=" + sfix + "\tinto=" + into + "\tref=" + ref
+	})
+
+	// html <spare> <dst> <src>: encoder.HTMLEscape(dst, src) with cap(dst) = len(dst)+spare;
+	// ref = json.HTMLEscape appended to the same prefix
+	registerOp("html", func(a []string) string {
+		spare := atoi(a[0])
+		d := unhexArg(a[1])
+		src := unhexArg(a[2])
+		dst := make([]byte, len(d), len(d)+spare)
+		copy(dst, d)
+		var bb bytes.Buffer
+		bb.Write(d)
+		json.HTMLEscape(&bb, src)
+		ref := "\tref=" + hexArg(bb.Bytes())
+		res := func() (r string) {
+			defer func() {
+				if p := recover(); p != nil {
+					r = "sonic=PANIC\tpanic=" + cleanMsg(p)
+				}
+			}()
+			out := encoder.HTMLEscape(dst, src)
+			return "sonic=" + hexArg(out)
+		}()
+		return res + ref
+	})
+
+	// utf8v <hex>: utf8.Validate / ValidateString; ref = unicode/utf8.Valid
+	registerOp("utf8v", func(a []string) string {
+		in := unhexArg(a[0])
+		v1 := sutf8.Validate(in)
+		v2 := sutf8.ValidateString(string(in))
+		s := b01(v1)
+		if v1 != v2 {
+			s = "split:" + b01(v1) + b01(v2)
+		}
+		return "sonic=" + s + "\tref=" + b01(utf8.Valid(in))
+	})
+
+	// utf8c <repl> <dst> <src>: utf8.CorrectWith(dst, src, repl); ref = bytewise replacement computed
+	// with unicode/utf8
+	registerOp("utf8c", func(a []string) string {
+		repl := string(unhexArg(a[0]))
+		d := unhexArg(a[1])
+		src := unhexArg(a[2])
+		dst := append(make([]byte, 0, len(d)), d...)
+		out := sutf8.CorrectWith(dst, src, repl)
+		ref := append(append([]byte{}, d...), fixUTF8(src, repl)...)
+		return "sonic=" + hexArg(out) + "\tref=" + hexArg(ref)
+	})
+
+	// mstr <shape> <cfg> <hex>: the string reached through Marshal.
+	//   shape v: Marshal(string)  i: Marshal(interface{}(string))  f: struct field  fs: field with `,string`
+	//         k: map key          a: ast.NewString(s).MarshalJSON()
+	//   cfg d: ConfigDefault  s: ConfigStd  h: EscapeHTML only  v: ValidateString only
+	// sonic = the literal (frame cut off); direct = the same composed from the directly called routines;
+	// ref = 1 when encoding/json decodes the whole document to the expected string
+	registerOp("mstr", func(a []string) string {
+		shape, cfg := a[0], a[1]
+		in := string(unhexArg(a[2]))
+		api := marshalCfg(cfg)
+		var doc []byte
+		var err error
+		pre, suf := "", ""
+		switch shape {
+		case "v":
+			doc, err = api.Marshal(in)
+		case "i":
+			var x interface{} = in
+			doc, err = api.Marshal(x)
+		case "f":
+			doc, err = api.Marshal(strField{in})
+			pre, suf = `{"s":`, `}`
+		case "fs":
+			doc, err = api.Marshal(strFieldQ{in})
+			pre, suf = `{"s":`, `}`
+		case "k":
+			doc, err = api.Marshal(map[string]int{in: 1})
+			pre, suf = `{`, `:1}`
+		case "a":
+			n := ast.NewString(in)
+			doc, err = n.MarshalJSON()
+		default:
+			return "sonic=unsupported"
+		}
+		if err != nil {
+			return "sonic=err"
+		}
+		lit, ok := unframe(doc, pre, suf)
+		if !ok {
+			return "sonic=badframe:" + hexArg(doc)
+		}
+		// the directly called routines, composed as internal/encoder/encoder.go:225 composes them
+		d := []byte(encoder.Quote(in))
+		if shape == "fs" {
+			d = []byte(encoder.Quote(string(d)))
+		}
+		html := shape != "a" && (cfg == "s" || cfg == "h")
+		valid := shape != "a" && (cfg == "s" || cfg == "v")
+		if html {
+			d = encoder.HTMLEscape(nil, d)
+		}
+		if valid && !sutf8.Validate(d) {
+			d = sutf8.CorrectWith(nil, d, `\ufffd`)
+		}
+		// reference: encoding/json reads the document back
+		want := in
+		if valid || !utf8.ValidString(in) {
+			want = string(fixUTF8([]byte(in), "\ufffd"))
+		}
+		ref := "0"
+		switch shape {
+		case "v", "i", "a":
+			var back string
+			if json.Unmarshal(doc, &back) == nil && back == want {
+				ref = "1"
+			}
+		case "f":
+			var back strField
+			if json.Unmarshal(doc, &back) == nil && back.S == want {
+				ref = "1"
+			}
+		case "fs":
+			var back strFieldQ
+			if json.Unmarshal(doc, &back) == nil && back.S == want {
+				ref = "1"
+			}
+		case "k":
+			back := map[string]int{}
+			if json.Unmarshal(doc, &back) == nil && len(back) == 1 {
+				if _, ok := back[want]; ok {
+					ref = "1"
+				}
+			}
+		}
+		return "sonic=" + hexArg(lit) + "\tdirect=" + hexArg(d) + "\tref=" + ref
+	})
+
+	// ustr <shape> <cfg> <body>: the string body reached through Unmarshal of `"`+body+`"`.
+	//   shape v: into *string  i: into *interface{}  f: struct field  fs: field with `,string`
+	//         (document {"s":"\"`+body+`\""})
+	//   cfg d: ConfigDefault  s: ConfigStd  u: decoder with UseUnicodeErrors (no F_UNICODE_REPLACE)
+	// direct = unquote.String on the body where the configuration adds nothing to it;
+	// ref = encoding/json on the same document where it is comparable
+	registerOp("ustr", func(a []string) string {
+		shape, cfg := a[0], a[1]
+		body := string(unhexArg(a[2]))
+		var doc string
+		switch shape {
+		case "v", "i":
+			doc = `"` + body + `"`
+		case "f":
+			doc = `{"s":"` + body + `"}`
+		case "fs":
+			doc = `{"s":"\"` + body + `\""}`
+		default:
+			return "sonic=unsupported"
+		}
+		dec := func(v interface{}) error {
+			switch cfg {
+			case "s":
+				return sonic.ConfigStd.UnmarshalFromString(doc, v)
+			case "u":
+				d := decoder.NewDecoder(doc)
+				d.UseUnicodeErrors()
+				if err := d.Decode(v); err != nil {
+					return err
+				}
+				return d.CheckTrailings()
+			}
+			return sonic.UnmarshalString(doc, v)
+		}
+		var got, std string
+		var err, serr error
+		switch shape {
+		case "v":
+			err = dec(&got)
+			serr = json.Unmarshal([]byte(doc), &std)
+		case "i":
+			var x, y interface{}
+			err = dec(&x)
+			if err == nil {
+				s, ok := x.(string)
+				if !ok {
+					return "sonic=nonstring"
+				}
+				got = s
+			}
+			serr = json.Unmarshal([]byte(doc), &y)
+			if serr == nil {
+				std, _ = y.(string)
+			}
+		case "f":
+			var x, y strField
+			err = dec(&x)
+			got = x.S
+			serr = json.Unmarshal([]byte(doc), &y)
+			std = y.S
+		case "fs":
+			var x, y strFieldQ
+			err = dec(&x)
+			got = x.S
+			serr = json.Unmarshal([]byte(doc), &y)
+			std = y.S
+		}
+		res := "err"
+		if err == nil {
+			res = okHex([]byte(got))
+		}
+		ref := "err"
+		if serr == nil {
+			ref = okHex([]byte(std))
+		}
+		direct := "na"
+		if shape != "fs" && cfg == "d" && !strings.Contains(body, `"`) {
+			s, e := unquote.String(body)
+			if e == 0 {
+				direct = okHex([]byte(s))
+			} else {
+				direct = "err"
+			}
+		}
+		return "sonic=" + res + "\tdirect=" + direct + "\tref=" + ref
+	})
+}
+
+func hasCtl(b []byte) bool {
+	for _, c := range b {
+		if c < 0x20 {
+			return true
+		}
+	}
+	return false
+}
+
+func atoi(s string) int {
+	n := 0
+	for _, c := range s {
+		if c < '0' || c > '9' {
+			break
+		}
+		n = n*10 + int(c-'0')
+	}
+	return n
+}
+
+func cleanMsg(p interface{}) string {
+	msg := ""
+	switch v := p.(type) {
+	case string:
+		msg = v
+	case error:
+		msg = v.Error()
+	default:
+		msg = "panic"
+	}
+	if len(msg) > 120 {
+		msg = msg[:120]
+	}
+	return strings.Map(func(r rune) rune {
+		if r == '\t' || r == '\n' || r == '\r' {
+			return ' '
+		}
+		return r
+	}, msg)
 }
